@@ -938,7 +938,7 @@ func dscCase(c *mc.Ctx, item int, thorough bool) mc.Verdict {
 	}
 	comment(dscKeys[ki], vi, ci, true)
 	// optionally a second comment directly after
-	second := c.Choose(5)
+	second := c.Choose(6)
 	switch second {
 	case 1:
 		comment("EOF", len(dscValues), 0, false)
@@ -951,6 +951,10 @@ func dscCase(c *mc.Ctx, item int, thorough bool) mc.Verdict {
 	case 4:
 		text.WriteString("%%Bare\f 7 pop %%NotDSC: mid-line\f8 pop" + eol1)
 		want = append(want, pstoken.DSC{Key: "Bare", Value: ""})
+	case 5:
+		// what follows the form feed is on the same line: `%%+` there is an ordinary comment
+		text.WriteString("%%Tail: ended by a form feed\f%%+ not a continuation line" + eol1)
+		want = append(want, pstoken.DSC{Key: "Tail", Value: "ended by a form feed"})
 	}
 	var post string
 	switch pos {
